@@ -41,6 +41,11 @@ HAND = [
     "function f(n, c) { var acc; var i = 0; while (i < n) { acc = 7; i += 1; if (c) { acc = 3 + 4; } } if (acc == 7) { return 1; } return 2; }",
     "function f(a, b) { var x; var y = 0; if (a) { x = 4; if (b) { x = 4; if (a == 2) { x = 2 * 2; } } } y = x + 1; if (y == 5) { return 1; } return 2; }",
     "function f(a, b) { var x; for (var i = 0; i < 2; i++) { if (a) { x = 9; } else { if (b) { x = 9; } } } if (x == 9) { return 1; } return 2; }",
+    # a signal whose only assignment is not on every path to the read (audit C06 f1): unassigned, it is 0 in the witness
+    "template T() { signal input in; signal output out; signal s; if (in == 0) { s <-- 1; } if (s == 1) { out <-- 2; } else { out <-- 3; } }",
+    "template T() { signal input in; signal output out; signal s; var k = 0; if (s == 1) { k = 5; } else { k = 6; } s <== 1; out <-- k; }",
+    "template T(n) { signal input in; signal output out; signal s; for (var i = 0; i < n; i++) { if (i == 1) { s <-- 4; } } out <-- (s == 4) ? in : 0; }",
+    "template T() { signal input in; signal output out; signal s; s <== 7; if (in == 0) { out <-- s + 1; } else { out <-- (s == 7) ? 1 : 0; } }",
     # a signal assigned by two statements on different paths: constant on one, not on the other
     "template T(n) { signal input in; signal output out; signal s; if (n == 1) { s <== 1; } else { s <== in; } if (s == 1) { out <== in; } else { out <== 0; } }",
     "template T(n) { signal input in; signal output out; signal s; if (n == 1) { s <== in; } else { s <== 1; } if (s == 1) { out <== in; } else { out <== 0; } }",
